@@ -160,6 +160,34 @@ func outermostIn(u *ssa.Function, in map[*ssa.Function]bool) *ssa.Function {
 	return u
 }
 
+// regionOwner: the declared function fn is a private part of — fn's outermost function, then, while that is unexported and
+// used from exactly one other declared function of its package, that user.
+func (p *Program) regionOwner(fn *ssa.Function) *ssa.Function {
+	fn = outermost(fn)
+	for hops := 0; hops < 4; hops++ {
+		if obj := fn.Object(); obj == nil || obj.Exported() {
+			return fn
+		}
+		var user *ssa.Function
+		n := 0
+		for _, cs := range p.realCallers(fn) {
+			u := outermost(cs.Parent())
+			if u == fn {
+				continue
+			}
+			if u != user {
+				user = u
+				n++
+			}
+		}
+		if n != 1 || fnPkgPath(user) != fnPkgPath(fn) || !p.inRegion(user, fn) {
+			return fn
+		}
+		fn = user
+	}
+	return fn
+}
+
 // regionTop: the declared (non-literal) functions of the region, fn first.
 func (p *Program) regionTop(fn *ssa.Function) []*ssa.Function {
 	var out []*ssa.Function
@@ -425,6 +453,54 @@ func (p *Program) fieldStoredElsewhere(recvType types.Type, field int, construct
 		}
 	}
 	return false
+}
+
+// fieldCell: a field of an unexported struct type of the repository — the state a closure turned into a small struct keeps
+// in place of captured variables. All instances of the type are taken together.
+type fieldCell struct {
+	named *types.Named
+	field int
+}
+
+func privateFieldCell(addr ssa.Value) (fieldCell, bool) {
+	fa, ok := stripConv(addr).(*ssa.FieldAddr)
+	if !ok {
+		return fieldCell{}, false
+	}
+	pt, ok := fa.X.Type().Underlying().(*types.Pointer)
+	if !ok {
+		return fieldCell{}, false
+	}
+	named, ok := pt.Elem().(*types.Named)
+	if !ok || named.Obj().Pkg() == nil || named.Obj().Exported() {
+		return fieldCell{}, false
+	}
+	if _, isStruct := named.Underlying().(*types.Struct); !isStruct {
+		return fieldCell{}, false
+	}
+	return fieldCell{named, fa.Field}, true
+}
+
+// fieldCellStores: every store to the field, anywhere in the type's package.
+func (p *Program) fieldCellStores(fc fieldCell) []*ssa.Store {
+	var out []*ssa.Store
+	for _, fn := range p.RepoFuncs {
+		if fnPkgPath(fn) != fc.named.Obj().Pkg().Path() {
+			continue
+		}
+		for _, b := range fn.Blocks {
+			for _, ins := range b.Instrs {
+				st, ok := ins.(*ssa.Store)
+				if !ok {
+					continue
+				}
+				if c2, ok := privateFieldCell(st.Addr); ok && c2 == fc {
+					out = append(out, st)
+				}
+			}
+		}
+	}
+	return out
 }
 
 // cellKey: identity of a piece of state that outlives one call of a function value: a captured variable, or a field of
